@@ -74,6 +74,19 @@ def run(tier, seed, opens):
                     ok += 1
             except (WalletError, TransactionError, ValueError):
                 ok += 1
+            # scenario: the wallet's only UTXO is a few hundred satoshi short of outputs + requested fee: the request must fail
+            cases += 1
+            try:
+                w3 = Wallet.create('c07s%d' % wn, network='bitcoinlib_test', db_uri=db, witness_type=wt)
+                k3 = w3.get_key()
+                short = rng.choice([1, 200, 600, 999])
+                w3.utxo_add(k3.address, 100000, '%064x' % rng.getrandbits(256), 0, confirmations=10)
+                dest3 = HDKey(network='bitcoinlib_test', witness_type=wt).address()
+                t3 = w3.transaction_create([(dest3, 100000 - 1000 + short)], fee=1000)
+                fail('insufficient funds by a few satoshi', {'wallet': wt, 'utxo': 100000, 'send': 100000 - 1000 + short, 'fee': 1000},
+                     'transaction with fee %r created' % t3.fee, 'WalletError (funds do not cover outputs + requested fee)')
+            except (WalletError, TransactionError, ValueError):
+                ok += 1
             own = set(w.addresslist())
             dests = [HDKey(network='bitcoinlib_test', witness_type=wt).address() for _ in range(3)]
             for _ in range(n_req):
@@ -132,6 +145,10 @@ def run(tier, seed, opens):
                         problems.append('unconfirmed UTXO selected')
                 if not explicit and need + (t.fee or 0) > spendable:
                     problems.append('transaction created although funds are insufficient')
+                if not explicit and fee is not None and need + fee > spendable:
+                    problems.append('transaction created although the wallet cannot cover the outputs plus the requested fee %d' % fee)
+                if fee is not None and t.fee is not None and t.fee < fee:
+                    problems.append('pays fee %d, less than the explicitly requested %d' % (t.fee, fee))
                 if fee is None and t.fee_per_kb and not (w.network.fee_min <= t.fee_per_kb <= w.network.fee_max):
                     problems.append('fee rate %d outside [%d, %d]' % (t.fee_per_kb, w.network.fee_min, w.network.fee_max))
                 if problems:
